@@ -27,8 +27,12 @@ Definition index_of (n : Z) (len : nat) : option nat :=
   else if (n <? 0) && (- l <=? n) then Some (Z.to_nat (l + n))
   else None.
 
-(* an integer literal as the i64 rsass sees: f64 of the literal, round, `as i64` (saturating) *)
-Definition i64_of_literal (n : Z) : Z := f_as_i64 (f_of_Z n).
+(* Number::into_integer: round, `as i64` (saturating), accept when within f32::EPSILON *)
+Definition into_integer (x : f64) : option Z :=
+  let int := f_as_i64 (fround x) in
+  if fle (fabs (fsub (f_of_Z int) x)) f32_epsilon then Some int else None.
+(* an integer literal as the i64 rsass sees (None: "is not an int", for |n| beyond the i64 range) *)
+Definition i64_of_literal (n : Z) : option Z := into_integer (f_of_Z n).
 
 (* fn check_separator; None = error *)
 Definition str_is (v : value) (t : string) : bool :=
